@@ -248,6 +248,54 @@ func (t *tlog) rechain(from int, relinkFirst bool) {
 	}
 }
 
+// resign is what a holder of signing keys can redo from entry `from` on: prev links, Merkle roots
+// (fixRoots) and the root signatures of the keys held, entry hashes and - with the Ed25519 key -
+// entry signatures.
+func (t *tlog) resign(k *keys, from int, fixRoots, haveEd, haveMl bool) {
+	var buf [][]byte
+	for i := 0; i < from && i < len(t.es); i++ {
+		switch t.es[i].Type {
+		case auditlog.EntryTypeLog:
+			buf = append(buf, t.es[i].Hash)
+		case auditlog.EntryTypeGrounding:
+			buf = nil
+		}
+	}
+	for i := from; i < len(t.es); i++ {
+		e := cloneEntry(t.es[i])
+		if i > 0 {
+			e.PreviousHash = cloneBytes(t.es[i-1].Hash)
+		}
+		if g, ok := e.Details.(*auditlog.GroundingDetails); ok && e.Type == auditlog.EntryTypeGrounding {
+			if fixRoots {
+				g.MerkleRootHash = auditlog.CalculateMerkleRoot(buf)
+			}
+			if haveEd {
+				sig, err := k.edSigner().Sign(g.MerkleRootHash)
+				must(err)
+				g.SignatureEd25519 = sig
+			}
+			if haveMl {
+				sig, err := k.mlSigner().Sign(g.MerkleRootHash)
+				must(err)
+				g.SignatureMlDsa87 = sig
+			}
+		}
+		if haveEd {
+			must(e.Sign(k.edSigner()))
+		} else {
+			e.Hash = e.CalculateHash()
+		}
+		t.set(i, e)
+		switch e.Type {
+		case auditlog.EntryTypeLog:
+			buf = append(buf, e.Hash)
+		case auditlog.EntryTypeGrounding:
+			buf = nil
+		}
+	}
+}
+
 // ---------------------------------------------------------------- field mutation (concretisation)
 
 func flipBit(b []byte) []byte {
@@ -572,8 +620,7 @@ func (x *c27Ctx) tamper(c *c27Case, worker int, nth int) event {
 			t.es, t.ch = t.es[:p+1], t.ch[:p+1]
 		}
 		// Does the tampered chunk still decode as exactly one entry?  Then the framing of the stream
-		// is intact and only this entry can differ.  Otherwise decode from the tampered entry to the
-		// end and compare with the original entries.
+		// is intact and only this entry can differ.
 		if c.Kind == "bytes" {
 			func() {
 				defer func() { recover() }()
@@ -595,43 +642,69 @@ func (x *c27Ctx) tamper(c *c27Case, worker int, nth int) event {
 				framingIntact = true
 				changed = diffFields(orig[p], e1)
 			}()
-			if framingIntact {
-				break
+			if !framingIntact {
+				// the chunk is no longer exactly one entry: everything behind it shifts or fails to decode
+				// (not decoded here a second time: a derailed binary stream costs GiB-sized allocations)
+				structure = true
 			}
+			break
 		}
-		var rest bytes.Buffer
-		for _, ch := range t.ch[p:] {
-			rest.Write(ch)
-		}
+		// trunc: what does the decoder make of the partial last entry?
 		func() {
 			defer func() {
 				if pp := recover(); pp != nil {
 					decodeErr = true
 				}
 			}()
-			got, err := decodeAll(rest.Bytes(), ser)
+			got, err := decodeAll(t.ch[p], ser)
 			if err != nil {
 				decodeErr = true
 				return
 			}
-			if c.Kind == "trunc" {
-				// a cut inside an entry: either nothing of it decodes (pure suffix cut) or all of it
-				structure = !(len(got) == 0 || (len(got) == 1 && len(diffFields(orig[p], got[0])) == 0))
-				return
-			}
-			want := orig[p:]
-			if len(got) != len(want) {
-				structure = true
-				return
-			}
-			changed = diffFields(want[0], got[0])
-			for i := 1; i < len(got); i++ {
-				if len(diffFields(want[i], got[i])) != 0 {
-					structure = true
-					return
-				}
-			}
+			// a cut inside an entry: either nothing of it decodes (pure suffix cut) or all of it
+			structure = !(len(got) == 0 || (len(got) == 1 && len(diffFields(orig[p], got[0])) == 0))
 		}()
+	case "forge": // logs re-signed by somebody who holds signing keys (c.Field names the defect)
+		structure = true
+		switch c.Field {
+		case "drop-log-resign", "drop-grounding-resign":
+			t.remove(p, 1)
+			t.resign(x.k, p, true, true, true)
+		case "wrong-merkle-resign":
+			e := cloneEntry(orig[p])
+			mutate(e, &c27Case{Field: "merkleRoot"})
+			t.set(p, e)
+			t.resign(x.k, p, false, true, true)
+		case "bad-rootsig-ed":
+			e := cloneEntry(orig[p])
+			mutate(e, &c27Case{Field: "sigEd25519"})
+			must(e.Sign(x.k.edSigner()))
+			t.set(p, e)
+			t.resign(x.k, p+1, true, true, true)
+		case "bad-rootsig-ml":
+			e := cloneEntry(orig[p])
+			mutate(e, &c27Case{Field: "sigMlDsa87"})
+			t.set(p, e)
+			t.resign(x.k, p, true, true, false)
+		case "nogenesis-resign":
+			t.remove(0, 1)
+			e := cloneEntry(t.es[0])
+			e.PreviousHash = cloneBytes(orig[0].PreviousHash)
+			t.set(0, e)
+			t.resign(x.k, 0, true, true, true)
+		case "genesisprev-resign":
+			e := cloneEntry(orig[0])
+			mutate(e, &c27Case{Field: "previousHash"})
+			t.set(0, e)
+			t.resign(x.k, 0, true, true, true)
+		case "edkey-field":
+			e := cloneEntry(orig[p])
+			mutate(e, &c27Case{Field: "key", Mut: "alter"})
+			t.set(p, e)
+			t.resign(x.k, p, true, true, false)
+		default:
+			fatalf("unknown forge case %q", c.Field)
+		}
 	default: // struct tamper on whole entries
 		structure = true
 		fe, fch := x.F.es, x.F.enc[c.Ser]
